@@ -659,7 +659,7 @@ func (x *exec) pure(clause string) {
 func (x *exec) iterate() {
 	t := x.t
 	const cl = "C09.G5.iter"
-	cands := x.raggedCands(cl, "C09.G1")
+	cands := x.raggedCands(cl)
 	x.desc = "NewCellIterator()/ForEach"
 	want := allCells(t)
 	var got []*document.CellInfo
